@@ -19,6 +19,8 @@ Inductive ccase :=
 | CDot (items : list string) (arr : list (string * (N * string))) (obs : list (list N))
 | CCart (items : list string) (d : nat) (arr : list (string * (N * string))) (obs : list (list N))
 | CGather (sizes : list (string * N * N)) (elems : list (string * N)) (obs : list (string * list N))
+(* get_entity_ids on entities whose persistent_id is None / 0 / n *)
+| CEntityIds (l : list (option N)) (r : list N)
 | CAnd (a b : ccase).
 
 Fixpoint remove_by {A} (eqb : A -> A -> bool) (x : A) (l : list A) : option (list A) :=
@@ -67,5 +69,6 @@ Fixpoint check_case (c : ccase) : bool :=
       let outs := Gather.Model.gout (Gather.Model.gd (Gather.Model.gather_run 1 arr)) in
       bag_eqb (pair_eqb String.eqb (bag_eqb N.eqb))
               (map (fun o => (Gather.Model.tag_of o, Prov.Steps.gather_prov sizes o)) outs) obs
+  | CEntityIds l r => list_eqb N.eqb (Prov.Steps.get_entity_ids l) r
   | CAnd a b => check_case a && check_case b
   end.
